@@ -53,7 +53,17 @@ type Op struct {
 	B2 bool `json:"b2,omitempty"`
 	// Crash: open a fresh node on the store snapshot of the last storage commit of this operation (core mode).
 	Crash bool `json:"crash,omitempty"`
+	// Tx: 0 = the operation's own implicit transaction, 1 = inside an explicit transaction that is committed,
+	// 2 = inside an explicit transaction that is discarded (addschema, patch, setactive, createindex, dropindex, create, update, delete).
+	Tx int `json:"tx,omitempty"`
+	// Fail (addschema): a further type that cannot be created is appended to the SDL, so the call fails
+	// after the earlier types were processed and its implicit transaction is rolled back.
+	// 1 = misspelled field in a type-level @index, 2 = two indexes with the same name.
+	Fail int `json:"fail,omitempty"`
 }
+
+// rolledBack reports an operation built not to take effect.
+func (o Op) rolledBack() bool { return o.Tx == 2 || o.Fail != 0 }
 
 // Case is one history.
 type Case struct {
@@ -122,6 +132,15 @@ func drawOp(t *rapid.T, mode string) Op {
 	}
 	o := Op{K: rapid.SampledFrom(pool).Draw(t, "kind")}
 	small := rapid.IntRange(0, 7)
+	switch o.K {
+	case opAddSchema, opPatch, opCreateIndex:
+		o.Tx = rapid.SampledFrom([]int{0, 0, 0, 0, 2, 1, 2, 0}).Draw(t, "tx")
+	case opSetActive, opDropIndex, opCreate, opUpdate, opDelete:
+		o.Tx = rapid.SampledFrom([]int{0, 0, 0, 0, 0, 0, 1, 2}).Draw(t, "tx")
+	}
+	if o.K == opAddSchema && o.Tx == 0 {
+		o.Fail = rapid.SampledFrom([]int{0, 0, 0, 1, 2}).Draw(t, "failOnLaterType")
+	}
 	switch o.K {
 	case opAddSchema:
 		o.N = rapid.IntRange(0, numTemplates-1).Draw(t, "template")
@@ -200,9 +219,41 @@ func drawCase(t *rapid.T, mode string) Case {
 		first = Op{K: opAddSchema, N: rapid.IntRange(0, numTemplates-1).Draw(t, "template0"), F: rapid.IntRange(1, 255).Draw(t, "fields0"),
 			X: rapid.SampledFrom([]int{0, 1, 2, 4, 3}).Draw(t, "sdlIndexes0"), B2: true}
 	}
-	c.Ops = append(c.Ops, first)
-	for len(c.Ops) < n {
-		c.Ops = append(c.Ops, drawOp(t, c.Mode))
+	// An operation built to be rolled back is usually followed, after 0-2 other operations, by the same
+	// operation in its effective form (the user fixes the SDL and resubmits, or repeats the work of a discarded transaction).
+	type redo struct {
+		o     Op
+		after int
+	}
+	var pending []redo
+	push := func(o Op) {
+		c.Ops = append(c.Ops, o)
+		if o.rolledBack() && rapid.IntRange(0, 4).Draw(t, "redo") != 0 {
+			r := o
+			r.Fail, r.Crash = 0, false
+			r.Tx = rapid.SampledFrom([]int{0, 0, 1}).Draw(t, "redoTx")
+			pending = append(pending, redo{o: r, after: rapid.IntRange(0, 2).Draw(t, "redoAfter")})
+		}
+	}
+	push(first)
+	for len(c.Ops) < n || len(pending) > 0 {
+		var due []redo
+		rest := pending[:0]
+		for _, r := range pending {
+			if r.after <= 0 {
+				due = append(due, r)
+			} else {
+				r.after--
+				rest = append(rest, r)
+			}
+		}
+		pending = rest
+		for _, r := range due {
+			c.Ops = append(c.Ops, r.o)
+		}
+		if len(c.Ops) < n || (len(due) == 0 && len(pending) > 0) {
+			push(drawOp(t, c.Mode))
+		}
 	}
 	if c.Mode == "core" {
 		if hx.Thorough() && rapid.IntRange(0, 3).Draw(t, "crashAll") == 0 {
